@@ -236,7 +236,7 @@ static void run_geometries(int op, int si, int mi, int di, int full, const pixma
             for (int g = 1; g < ng; g += 2) if (G[g].mx == G[g].sx) G[g].mx = G[g].sx + 2;
             /* ... in both directions: every combination of source and mask origins in {0,1}^4 (only equal origins are a pixbuf) */
             for (int q = 0; q < 16 && ng < 4090; q++) { G[ng].w = 33; G[ng].h = 2; G[ng].dx = q & 3; G[ng].sx = q & 1; G[ng].sy = q >> 1 & 1; G[ng].mx = q >> 2 & 1; G[ng].my = q >> 3 & 1; ng++; }
-        } else if (MASK[mi].kind >= 0) { imgkind_t mk = { MASK[mi].name, MASK[mi].fmt, MASK[mi].kind }; m = make_img(&mk, 0, IMGW, IMGH, variant ? 8 : 0, !variant, 5 + variant); if (MASK[mi].ca) pixman_image_set_component_alpha(m.img, 1); }
+        } else if (MASK[mi].kind >= 0) { imgkind_t mk = { MASK[mi].name, MASK[mi].fmt, MASK[mi].kind }; m = make_img(&mk, 0, IMGW, IMGH, variant ? 8 : 0, !variant, 5 + variant); if (MASK[mi].ca) pixman_image_set_component_alpha(m.img, ph_truthy((uint64_t)si + (uint64_t)di + (uint64_t)variant)); }
         himg_t d = make_img(&DST[di], 0, IMGW, IMGH, variant ? 4 : 0, variant, 9);
         if (!s.img || !d.img) { free_img(&s); free_img(&m); free_img(&d); return; }
         if (xf) {
@@ -445,7 +445,7 @@ static void p6_case(uint64_t idx, void *vctx)
     himg_t s = make_img(&SRC[si], !strcmp(SRC[si].name, "solid-opaque"), IMGW, IMGH, 0, 0, 1), s2 = make_img(&SRC[si], !strcmp(SRC[si].name, "solid-opaque"), IMGW, IMGH, 0, 0, 1);
     himg_t m, m2; memset(&m, 0, sizeof m); memset(&m2, 0, sizeof m2);
     if (MASK[mi].kind >= 0) { imgkind_t mk = { MASK[mi].name, MASK[mi].fmt, MASK[mi].kind }; m = make_img(&mk, 0, IMGW, IMGH, 0, 1, 5); m2 = make_img(&mk, 0, IMGW, IMGH, 0, 1, 5);
-                               if (MASK[mi].ca) { pixman_image_set_component_alpha(m.img, 1); pixman_image_set_component_alpha(m2.img, 1); } }
+                               if (MASK[mi].ca) { pixman_image_set_component_alpha(m.img, ph_truthy((uint64_t)si + (uint64_t)di)); pixman_image_set_component_alpha(m2.img, ph_truthy((uint64_t)si + (uint64_t)di + 1)); } }
     himg_t d = make_img(&DST[di], 0, IMGW, IMGH, 0, 0, 9), d2 = make_img(&DST[di], 0, IMGW, IMGH, 0, 0, 9);
     static uint8_t amap_bits[IMGH][IMGW + 4], ref_amap[IMGH][IMGW + 4];
     pixman_image_t *amap = NULL;
